@@ -160,7 +160,18 @@ static int cb_tick(const char *kind, cfg_opt_t *opt, const string &extra)
 	return g_cbfail && g_cbseq == g_cbfail;
 }
 
-static long pure_int(const char *v) { return 7 * (long)strlen(v) + (unsigned char)v[0]; }
+// the integer a value-parsing callback produces: a full long (beyond 32 bits and negative for tokens of some lengths);
+// mirrored by pure_int() in pbt/model_lang.py
+static long pure_int(const char *v)
+{
+	long n = (long)strlen(v), b0 = (unsigned char)v[0];
+	long r = 7 * n + b0;
+	if (n % 3 == 2)
+		r += (b0 + 1) << 33;
+	if (n % 5 == 4)
+		r = -r;
+	return r;
+}
 
 static int parse_cb(cfg_t *cfg, cfg_opt_t *opt, const char *value, void *result)
 {
